@@ -882,8 +882,8 @@ Proof.
   eapply rel_item_ok; exact H3.
 Qed.
 
-Lemma step_rel_inv st s ir st' o :
-  inv st -> In s (st_sess st) -> In (st', o) (step_rel Repaired st s ir) -> inv st'.
+Lemma step_rel_inv st s ir r6 st' o :
+  inv st -> In s (st_sess st) -> In (st', o) (step_rel Repaired st s ir r6) -> inv st'.
 Proof.
   intros Hinv Hin. unfold step_rel, bindl. intros H.
   apply in_flat_map in H. destruct H as (r1 & H1 & H).
@@ -891,7 +891,7 @@ Proof.
     as [pr' r2] eqn:Ep.
   apply in_flat_map in H. destruct H as (r3 & H3 & H).
   apply in_map_iff in H. destruct H as (r4 & E & H4).
-  destruct (if ir && s_ipcp s then prov6_release Repaired (p6 pr') r4 (s_mac s) (s_id s) else (p6 pr', r4)) as [q' r5] eqn:E6.
+  destruct (if r6 then prov6_release Repaired (p6 pr') r4 (s_mac s) (s_id s) else (p6 pr', r4)) as [q' r5] eqn:E6.
   inversion E; subst; clear E.
   apply dead_inv; auto.
   eapply step_ok_trans; [eapply rel_item_ok with (x := oitem (s_b4 s)) | ].
@@ -901,7 +901,7 @@ Proof.
   eapply step_ok_trans; [eapply rel_item_ok with (x := oitem (s_b6 s)) | ].
   { destruct (s_b6 s); exact H3. }
   eapply step_ok_trans; [eapply rel_item_ok; exact H4|].
-  destruct (ir && s_ipcp s); [eapply prov6_release_ok; exact E6|inversion E6; subst; apply step_ok_refl].
+  destruct r6; [eapply prov6_release_ok; exact E6|inversion E6; subst; apply step_ok_refl].
 Qed.
 
 (* ---------------------------------------------------------------- IPoE: ID / IQ / IS *)
@@ -1245,7 +1245,7 @@ Qed.
 Lemma step_inv st o st' ot : inv st -> In (st', ot) (step Repaired st o) -> inv st'.
 Proof.
   intros Hinv. unfold step, skip.
-  destruct o as [sid vrf s4 s6 spd o4 o6 od|sid a|sid|isreq bind rq sid vrf s4 o4|isreq sid vrf s6 spd o6 od|sid|sid| |sid|sid|sid|sid vrf s4 o4 s6 spd o6 od];
+  destruct o as [sid vrf s4 s6 spd o4 o6 od|sid a|sid|isreq bind rq sid vrf s4 o4|isreq sid vrf s6 spd o6 od|sid|sid| |sid|sid|sid|sid vrf s4 o4 s6 spd o6 od|sid];
     try (apply step_restart_inv; exact Hinv);
     destruct (find_sess sid st) as [s|] eqn:Ef;
     try (intros [E|[]]; inversion E; subst; exact Hinv);
@@ -1283,6 +1283,7 @@ Proof.
     + intros _ _. unfold ic_ctx; cbn [s_ppp s_told s_b6 s_bd s_vrf s_id oitem].
       split; [intros X; discriminate|]. repeat split; apply oo_none.
     + unfold told_ok, ic_ctx; cbn [s_ppp]. intros X; discriminate.
+  - destruct (negb (s_ppp s) && s_live s); [apply step_rel_inv; auto|intros [E|[]]; inversion E; subst; exact Hinv].
 Qed.
 
 Lemma reach_inv st0 st : inv st0 -> reach Repaired st0 st -> inv st.
@@ -1564,7 +1565,7 @@ Proof.
   assert (Hfind : forall sid s, find_sess sid st = Some s -> rec_ok s).
   { intros sid s Hf. unfold find_sess in Hf. apply find_in in Hf. destruct Hf as [Hf _].
     eapply Forall_forall in Hss; eauto. }
-  destruct o as [sid vrf s4 s6 spd o4 o6 od|sid a|sid|isreq bind rq sid vrf s4 o4|isreq sid vrf s6 spd o6 od|sid|sid| |sid|sid|sid|sid vrf s4 o4 s6 spd o6 od].
+  destruct o as [sid vrf s4 s6 spd o4 o6 od|sid a|sid|isreq bind rq sid vrf s4 o4|isreq sid vrf s6 spd o6 od|sid|sid| |sid|sid|sid|sid vrf s4 o4 s6 spd o6 od|sid].
   8:{ unfold step_restart.
       destruct (fold_left (restore_one Repaired (store (st_prov st))) (st_sess st)
                   (mkReg (map reset_pool (pools (st_reg st))) [], [])) as [r2 ss] eqn:E.
@@ -1608,7 +1609,7 @@ Proof.
     + unfold step_rel, bindl. intros H. apply in_flat_map in H. destruct H as (r1 & _ & H).
       destruct (prov_release Repaired (st_prov st) r1 (s_mac s) (s_id s)) as [pr2 r2] eqn:Epr.
       apply in_flat_map in H. destruct H as (r3 & _ & H). apply in_map_iff in H. destruct H as (r4 & E & _).
-      destruct (if true && s_ipcp s then prov6_release Repaired (p6 pr2) r4 (s_mac s) (s_id s) else (p6 pr2, r4)) as [q2 r5].
+      destruct (if s_ipcp s then prov6_release Repaired (p6 pr2) r4 (s_mac s) (s_id s) else (p6 pr2, r4)) as [q2 r5].
       inversion E; subst. pose proof (prov_release_store _ _ _ _ _ _ _ Epr) as Es.
       apply rec_put; auto. apply store_unckpt_ok. cbn [store with_p6]. rewrite Es; exact Hst.
   - destruct (s_ppp s) eqn:Ep; cbn [negb andb]; [intros [E|[]]; inversion E; subst; exact Hinv|].
@@ -1638,6 +1639,12 @@ Proof.
     apply rec_put; [exact Hinv| |exact Hst]. exact Hs.
   - destruct (negb (s_ppp s) && s_live s && negb (s_started s)); intros [E|[]]; inversion E; subst; try exact Hinv.
     apply rec_put; [exact Hinv| |exact Hst]. intros _. left. reflexivity.
+  - destruct (negb (s_ppp s) && s_live s); [|intros [E|[]]; inversion E; subst; exact Hinv].
+    unfold step_rel, bindl. intros H. apply in_flat_map in H. destruct H as (r1 & _ & H).
+    destruct (prov_release Repaired (st_prov st) r1 (s_mac s) (s_id s)) as [pr2 r2] eqn:Epr.
+    apply in_flat_map in H. destruct H as (r3 & _ & H). apply in_map_iff in H. destruct H as (r4 & E & _).
+    inversion E; subst. pose proof (prov_release_store _ _ _ _ _ _ _ Epr) as Es.
+    apply rec_put; auto. apply store_unckpt_ok. cbn [store with_p6]. rewrite Es; exact Hst.
 Qed.
 
 Lemma reach_rec st0 st : rec_inv st0 -> reach Repaired st0 st -> rec_inv st.
